@@ -16,6 +16,7 @@ from typing import Any
 from sim import corpus, histsim, kit, project, runner
 
 PROP = "C02"
+FAMILY = {"hist": 2400, "stall": 300}  # finite scenario families (members are independent of VERIF_SEED)
 SOFT = ("only_once_note", "partial_output_before_blocker")  # known classes: keep looking for others
 
 
@@ -134,7 +135,7 @@ def minimise(scn: dict[str, Any], viol: dict[str, Any]) -> dict[str, Any]:
 
 
 def gen(k: int, tier: str, stall: bool = False) -> dict[str, Any]:
-    rng = kit.rng_for(PROP, "hist", k, "stall" if stall else "")
+    rng = kit.family_rng(PROP, "hist", k, "stall" if stall else "")
     cfg = histsim.STORE_CONFIGS[k % len(histsim.STORE_CONFIGS)]
     scn = histsim.gen_history_scenario(rng, cfg=cfg, max_steps=6 if tier == "quick" else 12)
     if stall:
@@ -170,10 +171,10 @@ def corpus_family_size() -> int:
 def gen_corpus(k: int, tier: str) -> dict[str, Any]:
     """Member k of the finite family (incremental corpus case x history transform)."""
     cases = inc_cases()
-    idx = k if tier == "thorough" else kit.rng_for(PROP, "corpus", k).randrange(corpus_family_size())
+    idx = k  # member index of the finite family
     c = cases[idx % len(cases)]
     tr = corpus.TRANSFORMS[(idx // len(cases)) % len(corpus.TRANSFORMS)]
-    files0, steps = corpus.transform_history(c, tr, kit.rng_for(PROP, "corpus-tr", idx))
+    files0, steps = corpus.transform_history(c, tr, kit.family_rng(PROP, "corpus-tr", idx))
     cfg = dict(histsim.STORE_CONFIGS[idx % len(histsim.STORE_CONFIGS)])
     cfg["extra_flags"] = corpus.step_flags(c, 0)
     return {"files": files0, "argv": corpus.step_argv(c, 0), "config": cfg, "steps": steps, "case": c["file"] + "::" + c["name"], "transform": tr, "member": idx}
@@ -196,9 +197,9 @@ def task(item: tuple[str, int, str]) -> dict[str, Any]:
     }
     if fam == "corpus":
         out["faults"] = {"transform_" + scn["transform"]: 1}
-    if k < 2 and fam != "corpus":
+    if k % 50 == 0 and fam != "corpus":
         out["sample"] = {"config": scn["config"], "steps": scn["steps"][:3], "modules": sorted(scn["project"]["mods"])}
-    elif k < 1:
+    elif k % 100 == 0:
         out["sample"] = {"case": scn["case"], "transform": scn["transform"], "config": scn["config"], "steps": [[e["e"] + ":" + e.get("path", "") for e in st["edits"]] for st in scn["steps"]]}
     if r["violation"] is not None:
         v = r["violation"]
@@ -249,10 +250,12 @@ def run(tier: str) -> int:
         "main campaign: a content-changing edit changes (int(mtime), size) of the file (what the project's own write_and_fudge_mtime helper guarantees); the stall family drops it",
         "edits happen between runs, never during one",
     ]
-    n = 120 if tier == "quick" else 4000
-    n_stall = 24 if tier == "quick" else 600
+    n = 120 if tier == "quick" else FAMILY["hist"]
+    n_stall = 24 if tier == "quick" else FAMILY["stall"]
     n_corpus = 150 if tier == "quick" else corpus_family_size()
-    items = [("hist", k, tier) for k in range(n)] + [("stall", k, tier) for k in range(n_stall)] + [("corpus", k, tier) for k in range(n_corpus)]
+    items = ([("hist", k, tier) for k in kit.sample_indices(PROP, "hist", FAMILY["hist"], n)]
+             + [("stall", k, tier) for k in kit.sample_indices(PROP, "stall", FAMILY["stall"], n_stall)]
+             + [("corpus", k, tier) for k in kit.sample_indices(PROP, "corpus", corpus_family_size(), n_corpus)])
     only = os.environ.get("VERIF_C02_FAMILY")
     if only:
         items = [it for it in items if it[0] == only]
